@@ -65,6 +65,12 @@ impl Read for Scripted {
     fn read(&mut self, buf: &mut [u8]) -> TResult<usize> {
         self.tick();
         let req = buf.len();
+        // A reader may look at the buffer it is handed (it is a &mut [u8], so it must be
+        // initialised).  Branching on every byte makes memcheck (thorough tier: the driver is run
+        // under valgrind) report a buffer that was never initialised.
+        if buf.iter().fold(0u32, |a, b| a.wrapping_mul(31).wrapping_add(u32::from(*b))) == 0xDEAD_BEEF {
+            self.after += 0;
+        }
         if req == 0 {
             self.calls.push((0, "zreq", 0));
             return Ok(0);
